@@ -40,6 +40,8 @@ pub enum TOp {
     Compact,
     BgCompact,
     SyncBg,
+    /// retain_regions keeping every region except this thread's region 2.
+    RetainOthers,
     /// Reader on region `r` of thread `of`: open, verify against the snapshot, close.
     ReaderOpen { of: usize, r: usize },
     ReaderCheck,
@@ -69,6 +71,7 @@ impl TOp {
             TOp::Compact => "compact",
             TOp::BgCompact => "bg_compact",
             TOp::SyncBg => "sync_bg",
+            TOp::RetainOthers => "retain_others",
             TOp::ReaderOpen { .. } => "reader_open",
             TOp::ReaderCheck => "reader_check",
             TOp::ReaderClose => "reader_close",
@@ -94,6 +97,7 @@ impl TOp {
             TOp::Compact => json!({"op":"compact"}),
             TOp::BgCompact => json!({"op":"bg_compact"}),
             TOp::SyncBg => json!({"op":"sync_bg"}),
+            TOp::RetainOthers => json!({"op":"retain_others"}),
             TOp::ReaderOpen { of, r } => json!({"op":"reader_open","of":of,"r":r}),
             TOp::ReaderCheck => json!({"op":"reader_check"}),
             TOp::ReaderClose => json!({"op":"reader_close"}),
@@ -123,6 +127,7 @@ impl TOp {
             "compact" => TOp::Compact,
             "bg_compact" => TOp::BgCompact,
             "sync_bg" => TOp::SyncBg,
+            "retain_others" => TOp::RetainOthers,
             "reader_open" => TOp::ReaderOpen { of: us(v, "of"), r },
             "reader_check" => TOp::ReaderCheck,
             "reader_close" => TOp::ReaderClose,
@@ -284,6 +289,7 @@ struct ThreadCtx {
     prep_snapshot: Arc<BTreeMap<String, Vec<u8>>>,
     property: String,
     with_compaction: bool,
+    flush_or_compaction: bool,
     out: Arc<Mutex<Vec<Violation>>>,
     counters: Arc<Mutex<BTreeMap<String, u64>>>,
 }
@@ -439,6 +445,22 @@ impl ThreadCtx {
                     self.violation("unexpected-error", op, format!("sync_bg_tasks failed: {e}"));
                 }
             }
+            TOp::RetainOthers => {
+                let mine = rname(self.ns, 2, self.regions.get(&2).map_or(0, |x| x.0));
+                let keep: std::collections::HashSet<String> = {
+                    let regions = self.db.regions();
+                    regions.id_to_index().keys().filter(|k| **k != mine).cloned().collect()
+                };
+                match self.db.retain_regions(keep) {
+                    Ok(()) => {
+                        self.regions.remove(&2);
+                    }
+                    Err(rawdb::Error::RegionStillReferenced { .. }) | Err(rawdb::Error::RegionNotFound) | Err(rawdb::Error::RegionIndexMismatch) => {
+                        self.bump("probe.retain_refused")
+                    }
+                    Err(e) => self.violation("unexpected-error", op, format!("retain_regions failed: {e}")),
+                }
+            }
             TOp::ReaderOpen { of, r } | TOp::ReadOnce { of, r } => {
                 // Regions of any thread may be read; the expectation comes from the preparation snapshot
                 // (other threads only append to / relocate the regions used for this).
@@ -519,14 +541,20 @@ impl ThreadCtx {
         // Bytes below the snapshot length must be bytes this region held at or after the
         // reader's creation. The writers of these regions only append, so offset o < len
         // can only ever have held snap[o].
+        // (`snap` = preparation bytes followed by every append the owner's program contains.)
+        if reader.len() > snap.len() {
+            self.violation("reader-snapshot-longer-than-region-ever-was", op, format!("reader on '{name}' has snapshot len {} but the region can hold at most {}", reader.len(), snap.len()));
+        }
         let n = reader.len().min(snap.len());
         let got = reader.read(0, n);
         if got != &snap[..n] {
             let at = got.iter().zip(snap.iter()).position(|(a, b)| a != b).unwrap_or(0);
-            // what happened to the region while the reader was alive decides the class
+            // what happened to the region while the reader was alive, and whether freed extents could
+            // have been reused or punched at all, decide the class
             let fate = if self.db.get_region(name).is_none() { "region-removed-under-reader" } else { "region-live" };
+            let reuse = if self.flush_or_compaction { "with-flush-or-compaction" } else { "nothing-flushed" };
             self.violation(
-                &format!("reader-foreign-bytes/{fate}"),
+                &format!("reader-foreign-bytes/{fate}/{reuse}"),
                 op,
                 format!("reader on '{name}' (snapshot len {}) returned a byte at offset {at} that the region never held there", reader.len()),
             );
@@ -688,6 +716,7 @@ fn run_case_inner(cfg: &Cfg, prog: &Program, stats: &mut Stats, dir: &std::path:
         initial_min_len: cfg.initial_min_len,
         max_ops: 0,
         big_writes: false,
+        sync_faults: false,
     };
     let mut prep_stats = Stats::default();
     if cfg.record_io {
@@ -752,6 +781,20 @@ fn run_case_inner(cfg: &Cfg, prog: &Program, stats: &mut Stats, dir: &std::path:
     if prog.prep.iter().any(|o| matches!(o, w1::Op::Flush | w1::Op::Compact)) || cfg.seed % 2 == 0 {
         db.flush().map_err(|e| Fail::Harness(format!("prep flush: {e}")))?;
     }
+    // For regions 0/1 of every thread (the ones a reader may observe) the owner only appends, so
+    // everything the region can ever hold is a prefix of: preparation bytes ++ its appends in order.
+    for (t, ops) in prog.threads.iter().enumerate() {
+        let ns = if cfg.shared_regions { 0 } else { t };
+        for op in ops {
+            if let TOp::Append { r, len, tag } = op
+                && *r < 2
+                && let Some(stream) = snapshot.get_mut(&rname(ns, *r, 0))
+            {
+                stream.extend(fill(*tag, *len));
+            }
+        }
+    }
+    let flush_or_compaction = prog.threads.iter().flatten().any(|o| matches!(o, TOp::Compact | TOp::BgCompact | TOp::Flush | TOp::FlushRegion { .. }));
     let snapshot = Arc::new(snapshot);
     let with_compaction = prog.threads.iter().flatten().any(|o| matches!(o, TOp::Compact | TOp::BgCompact));
     for t in 0..nthreads {
@@ -771,6 +814,7 @@ fn run_case_inner(cfg: &Cfg, prog: &Program, stats: &mut Stats, dir: &std::path:
             prep_snapshot: snapshot.clone(),
             property: cfg.property.clone(),
             with_compaction,
+            flush_or_compaction,
             out: out.clone(),
             counters: counters.clone(),
         });
@@ -960,7 +1004,7 @@ fn gen_region_op(rng: &mut Rng, tag: &mut u64, nthreads: usize, t: usize) -> TOp
         11 => TOp::BgCompact,
         12 => TOp::SyncBg,
         13 => TOp::ReadOnce { of: rng.below(nthreads), r: rng.below(2) },
-        14 => TOp::Create { r: 2 },
+        14 => if rng.chance(1, 3) { TOp::RetainOthers } else { TOp::Create { r: 2 } },
         _ => {
             let _ = t;
             TOp::Append { r, len: 300_000, tag: *tag }
@@ -1010,15 +1054,32 @@ impl W5Check {
                 cfg.vec_kinds = vec![rng.below(4)];
                 let per_page = 2048usize;
                 let compressed = cfg.vec_kinds[0] >= 2;
+                // open known finding: a reader can observe the in-place re-encoding of the last raw page.
+                // While it is open, compressed vectors either stay on whole pages or stay strictly inside
+                // one partial page (the fast raw append, which does not rewrite anything in place), so
+                // that other defects of either path stay visible.
+                let inside_page = rng.chance(1, 2);
+                let mut room = 0usize;
                 if compressed && whole_pages {
-                    // open known finding: a reader can observe the in-place rewrite of the last raw
-                    // page; keep compressed vectors on whole pages so that other defects stay visible
-                    cfg.prefix = per_page * rng.below(2);
+                    if inside_page {
+                        cfg.prefix = *rng.pick(&[5usize, 100, 2040]);
+                        room = per_page - 1 - cfg.prefix;
+                    } else {
+                        cfg.prefix = per_page * rng.below(2);
+                    }
                 }
                 for _ in 0..rng.range(2, 5) {
                     let mut n = *rng.pick(&[1usize, 3, 7, per_page - 1, per_page, per_page + 1, 100, 3 * per_page + 5, 40_000]);
                     if compressed && whole_pages {
-                        n = per_page * rng.range(1, 3);
+                        if inside_page {
+                            n = (*rng.pick(&[1usize, 2, 3])).min(room);
+                            if n == 0 {
+                                break;
+                            }
+                            room -= n;
+                        } else {
+                            n = per_page * rng.range(1, 3);
+                        }
                     }
                     threads[0].push(TOp::VPush { n });
                     threads[0].push(if rng.chance(1, 4) { TOp::VCommit } else if rng.chance(1, 3) { TOp::VFlush } else { TOp::VWrite });
@@ -1071,6 +1132,11 @@ impl W5Check {
                             if no_compaction && matches!(op, TOp::Compact | TOp::BgCompact) {
                                 continue;
                             }
+                            // retain_regions removes whatever is not in its keep-set, including regions other
+                            // threads create meanwhile: not an isolation scenario (C11 uses it)
+                            if matches!(op, TOp::RetainOthers) {
+                                continue;
+                            }
                             // regions 0/1 of a thread may be observed by a reader: keep them append-only
                             // (a removal is fine: it must be refused while somebody holds a reader)
                             let touches_observed = match &op {
@@ -1108,7 +1174,12 @@ impl W5Check {
                     for _ in 0..rng.range(2, 6) {
                         tag = tag.wrapping_add(2);
                         let r = rng.below(2);
-                        th.push(match rng.below(5) {
+                        let pick = rng.below(6);
+                        if pick == 5 {
+                            th.push(TOp::Create { r: 2 });
+                        }
+                        th.push(match pick {
+                            5 => TOp::Append { r: 2, len: *rng.pick(&[100usize, 4000, 4096]), tag },
                             0 | 1 => TOp::Append { r, len: *rng.pick(&[1usize, 100, 900, 3000, 4096]), tag },
                             2 => TOp::Truncate { r, to: rng.next() as usize >> 20 },
                             3 => TOp::Append { r, len: 9000, tag },
@@ -1137,6 +1208,7 @@ impl W5Check {
                     vec![TOp::Compact],
                     vec![TOp::BgCompact, TOp::SyncBg],
                     vec![TOp::BgCompact],
+                    vec![TOp::Create { r: 2 }, TOp::RetainOthers],
                     vec![TOp::ReadOnce { of: 0, r: 0 }, TOp::ReadOnce { of: 1, r: 1 }],
                     vec![TOp::VPush { n: 3 }, TOp::VWrite],
                     vec![TOp::VPush { n: 2049 }, TOp::VWrite],
@@ -1184,6 +1256,18 @@ impl W5Check {
                         threads[0].push(TOp::FlushRegion { r: 0 });
                         threads[1].push(TOp::Compact);
                         threads[2].push(TOp::Append { r: rng.below(2), len: 300_000, tag: tag.wrapping_add(4) });
+                    }
+                    2 if rng.chance(1, 2) => {
+                        // a full region growing into the promoted hole right behind it, vs compaction, vs file growth;
+                        // and retain_regions scanning while another thread changes the region table
+                        threads[0].push(TOp::Remove { r: 1 });
+                        threads[0].push(TOp::Flush);
+                        threads[0].push(TOp::Append { r: 0, len: *rng.pick(&[4000usize, 5000, 9000]), tag: tag.wrapping_add(2) });
+                        threads[1].push(TOp::Compact);
+                        threads[1].push(TOp::Create { r: 2 });
+                        threads[1].push(TOp::RetainOthers);
+                        threads[2].push(TOp::Append { r: rng.below(2), len: 300_000, tag: tag.wrapping_add(4) });
+                        threads[2].push(TOp::Rename { r: 0 });
                     }
                     _ => {
                         cfg.vec_kinds = vec![2 + rng.below(2), 9, 9];
